@@ -11,6 +11,12 @@ PY = "/venv/bin/python"
 
 # property -> (design_ref, technique, level text, level_note)
 CLAIMS = {
+    "C01": (
+        "DESIGN.md §3 C01",
+        "whole-program points-to/effect analysis (who-may-write over all in-place write sites), dominance + def-use over the group-step CFG, region-exhaustive evaluation of the refresh-schedule predicate, wiring of per-step hyperparameters",
+        "Static necessary conditions of the update rule, decided for every path/call site of the current tree: (1) no in-place write can reach a state tensor outside that state's own recurrence (this is how the SGD-grafting corruption of the gradient EMA was found); (2) the stages of one group step are ordered by their data dependences and one direction list flows through them, scaled by -lr and applied last; (3) the refresh predicate equals the documented schedule on the post-increment group step and the amortized computation runs only under it; (4) the group step counter is incremented exactly once by 1 and registered per group in optimizer state; (5) per-step hyperparameters are read from the loop's param group and reach the matching formal. NOT decided: the arithmetic of each recurrence (coefficients, exponents, bias-correction terms, contraction indices).",
+        "Trusts the torch operation table in sv/tables.py (in-place / view / maybe-copy / fresh); points-to is a may-analysis (k=1 call strings quick, k=2 thorough) and can only err towards reporting.",
+    ),
     "C17": (
         "DESIGN.md §3 C17",
         "abstract interpretation of the constructor's guard chains over the region partition of each argument (incl. NaN) + first-match evaluation of type-dispatch chains over the real MRO",
